@@ -165,6 +165,19 @@ def r5_1_guard(ctx, prog, rule="R5.1"):
         ctx.ob(rule, "recv:%s" % key, ok, why or "effects only behind contains_key=true", info["where"],
                replay=None if ok else pa.describe())
     ctx.floor(rule, "response path classes", n, 8)
+    # a received *request* never ends a transaction, whatever id it carries (a reflected copy of the client's own request)
+    rq = None
+    for pa in paths:
+        d = recv_desc(pa)
+        if d["cls"] == "Request":
+            effs = [x for x in _order(pa) if is_effect(x)]
+            ok = pa.ret_kind == "Err" and not effs
+            if rq is None or not ok:
+                rq = (ok, "%s -> %s, effects %s" % (desc_key(d), pa.ret_kind, effs), pa)
+    if rq is not None:
+        ctx.ob(rule, "recv-request", rq[0], rq[1], info["where"], replay=None if rq[0] else rq[2].describe())
+    else:
+        ctx.violation(rule, "recv-request", "no path of on_buffer_recv classifies a received request", info["where"])
     # a response with contains_key=false is rejected
     for pa in paths:
         d = recv_desc(pa)
@@ -263,6 +276,27 @@ def r17_1_reject(ctx, prog, rule="R17.1"):
     for key, (ok, why, pa) in sorted(seen.items()):
         ctx.ob(rule, "reject:%s" % key, ok, why, info["where"], replay=None if ok else pa.describe())
     ctx.floor(rule, "rejecting path classes", len(seen), 8)
+    # the buffers the statement lists as rejected ARE rejected: undecodable bytes, a request (whatever its transaction id),
+    # a response whose id is not in the table - Err on every such path, before the mechanism and every other effect
+    must = {}
+    for pa in paths:
+        d = recv_desc(pa)
+        kind = None
+        if d["decode"] == "Err":
+            kind = "undecodable"
+        elif d["cls"] == "Request":
+            kind = "request"
+        elif d["cls"] in ("SuccessResponse", "ErrorResponse") and d["contains"] == 0:
+            kind = "unknown-id"
+        if kind is None:
+            continue
+        effs = [x for x in _order(pa) if is_effect(x)]
+        ok = pa.ret_kind == "Err" and not effs
+        if kind not in must or not ok:
+            must[kind] = (ok, "%s -> %s %s, effects %s" % (desc_key(d), pa.ret_kind, pa.ret_err() if pa.ret_kind == "Err" else "", effs), pa)
+    for kind, (ok, why, pa) in sorted(must.items()):
+        ctx.ob(rule, "must-reject:%s" % kind, ok, why, info["where"], replay=None if ok else pa.describe())
+    ctx.floor(rule, "kinds of buffer that must be rejected", len(must), 3)
     # shared-reference facts: decoder.decode, validate_fingerprint, contains_key receive & only
     body = info["body"]
     for rx, what in ((RX_DECODE, "decode"), (RX_FP, "validate_fingerprint"), (RX_CONTAINS, "contains_key")):
